@@ -341,7 +341,8 @@ class _Interval:
         generator = np.random.SeedSequence(entropy=self._top._entropy,
                                            spawn_key=(self._spawn_key, self._depth),
                                            pool_size=self._top._pool_size)
-        self._W_seed, self._H_seed, self._left_a_seed, self._right_a_seed = generator.generate_state(4)
+        # 64-bit seeds: with the default 32-bit words, two of the ~1e5 seeds of a long solve coincide (birthday bound).
+        self._W_seed, self._H_seed, self._left_a_seed, self._right_a_seed = generator.generate_state(4, dtype=np.uint64)
 
         self._left_child = _Interval(start=self._start,
                                      end=midway,
@@ -555,7 +556,7 @@ class BrownianInterval(brownian_base.BaseBrownian, _Interval):
 
         # Set the global increment and space-time Levy area
         generator = np.random.SeedSequence(entropy=entropy, pool_size=pool_size)
-        initial_W_seed, initial_H_seed, top_a_seed = generator.generate_state(3)
+        initial_W_seed, initial_H_seed, top_a_seed = generator.generate_state(3, dtype=np.uint64)
         if W is None:
             W = self._randn(initial_W_seed) * math.sqrt(t1 - t0)
         else:
